@@ -1,3 +1,577 @@
 import LenaModel.Model.C06
 import LenaModel.Lemmas.C06
-/-! # C06 — property theorems -/
+/-! # C06 — property theorems: histogram fill puts every value into exactly the right cell and
+conserves weight
+
+Property (properties.jsonl, C06): *For strictly increasing finite edges in any dimension and any
+sequence of coordinates and weights, (1) each fill adds the weight to exactly the one cell whose
+half-open intervals `[low, high)` contain the coordinate in every dimension, (2) or to
+`n_out_of_range` if there is none, (3) and changes nothing else; (4) the bin index reported for a
+value equals the number of edges not greater than it, minus one.  (5) Hence the sum of all bins
+plus `n_out_of_range` always equals the total filled weight, for the histogram structure and for
+the `Histogram` element alike.*
+
+All theorems are about the transcribed model `LenaModel/Model/C06.lean`, for **all** inputs:
+* `α` — edge values and coordinates: any type with a decidable linear order
+  (`Std.IsLinearOrder`, `Std.LawfulOrderLT`; instances exist for `Int`, `Nat`, `Rat`);
+* `β` — bin contents and weights: any commutative monoid (`Lean.Grind.AddCommMonoid`);
+* edge arrays of any length, any number of dimensions, any number of fills;
+* the floating-point interpolation guess of the search is an arbitrary function with values in
+  `[ind_min, ind_max]` (`GuessOK`): the result does not depend on it (`bin1d_guess_independent`).
+
+Vocabulary (`Lemmas/C06.lean`): `StrictInc arr` (pairwise `<`), `countLE arr v` (number of edges
+`≤ v`), `ValidAxis` (≥ 2 strictly increasing edges), `ValidEdges` (≥ 1 axis, all valid),
+`InCell axes xs idx` (the half-open cell `idx` contains the point `xs`), `indices axes xs`
+(`countLE − 1` per axis), `total` (sum of all cells), `NArr.modifyAt`, `NArr.get?` (`Model/NArr.lean`).
+
+Map sentence → theorem:
+ (4) `bin1d_spec`, `bin1d_halfopen`, `bin1d_guess_independent`, `bin1d_returns`, `getBinOnValue_spec`;
+ (1) `fill_exact_cell` with `inCell_unique`;  (2) `fill_out_of_range`;  (3) `fill_frame`, `fill_conserves`;
+ (5) `fill_conserves`, `fillAll_conserves`, `weight_conserved`, `elem_weight_conserved`
+     (`elem_fill_exact_cell`, `elem_fill_out_of_range` for the element);
+ precondition guard: `checkEdgesIncreasing_ok/_err` (Lemmas), `mkHist_valid`, `mkHist_invalid`. -/
+open Lena
+namespace Lena.C06
+set_option linter.unusedSectionVars false
+
+/-! ## (4) the bin index: `get_bin_on_value_1d` -/
+section Search
+variable {α : Type} [LT α] [LE α] [DecidableLT α] [DecidableLE α] [DecidableEq α]
+  [Std.IsLinearOrder α] [Std.LawfulOrderLT α]
+
+/-- **Sentence (4), one axis.**  For every strictly increasing non-empty `arr` (the property asks
+for ≥ 2 edges; one edge works too), every value and every in-range guess function, the search
+returns (it is total by construction: the recursion of `bin1dLoop` is accepted with measure
+`ind_max − ind_min`) and its result is *(the number of edges not greater than the value) − 1*. -/
+theorem bin1d_spec (guess : Nat → Nat → Int) {arr : List α} (val : α) (hg : GuessOKAt arr val guess)
+    (hinc : StrictInc arr) (hne : arr ≠ []) :
+    bin1d guess val arr = .ok ((countLE arr val : Int) - 1) := by
+  have hl : arr.length ≠ 0 := by simpa using hne
+  have hk := countLE_le_length arr val
+  simp only [bin1d, hl, if_false]
+  exact bin1dLoop_spec guess val arr hg hinc _ 0 (arr.length - 1) rfl (by omega) (by omega) (by omega) (by omega)
+
+/-- With the interpolation of the source evaluated in exact integer arithmetic (floor division)
+the hypothesis on the guess holds, so the search is correct outright; what remains unverified is
+only that *floating-point* evaluation of the same formula also stays in range. -/
+theorem bin1d_interp {arr : List Int} (val : Int) (hinc : StrictInc arr) (hne : arr ≠ []) :
+    bin1d (interpGuess arr val) val arr = .ok ((countLE arr val : Int) - 1) :=
+  bin1d_spec _ val (interpGuess_okAt arr val) hinc hne
+
+/-- The result does not depend on the interpolation guess (so no floating-point reasoning is
+needed for correctness, only for the guess staying in range). -/
+theorem bin1d_guess_independent (g₁ g₂ : Nat → Nat → Int) (h₁ : GuessOK g₁) (h₂ : GuessOK g₂)
+    {arr : List α} (hinc : StrictInc arr) (hne : arr ≠ []) (val : α) :
+    bin1d g₁ val arr = bin1d g₂ val arr := by
+  rw [bin1d_spec g₁ val (h₁.at _ _) hinc hne, bin1d_spec g₂ val (h₂.at _ _) hinc hne]
+
+/-- **Closed lower / open upper bound.**  The result `r` is `−1` iff the value is below the first
+edge, `len − 1` iff it is `≥` the last edge, and `i` (`0 ≤ i < len − 1`) iff
+`arr[i] ≤ val < arr[i+1]`. -/
+theorem bin1d_halfopen (guess : Nat → Nat → Int) (hg : GuessOK guess) {arr : List α}
+    (hinc : StrictInc arr) (hne : arr ≠ []) (val : α) :
+    ∃ r : Int, bin1d guess val arr = .ok r ∧
+      (r = -1 ↔ val < arr[0]'(List.length_pos_iff.2 hne)) ∧
+      (r = (arr.length : Int) - 1 ↔ arr[arr.length - 1]'(Nat.sub_lt (List.length_pos_iff.2 hne) Nat.one_pos) ≤ val) ∧
+      (∀ (i : Nat) (h : i + 1 < arr.length), r = (i : Int) ↔ arr[i] ≤ val ∧ val < arr[i + 1]) := by
+  have hpos : 0 < arr.length := List.length_pos_iff.2 hne
+  have hk := countLE_le_length arr val
+  refine ⟨_, bin1d_spec guess val (hg.at _ _) hinc hne, ?_, ?_, ?_⟩
+  · rw [lt_iff_not_le', le_iff_lt_countLE hinc 0 hpos]; omega
+  · rw [le_iff_lt_countLE hinc (arr.length - 1) (by omega)]; omega
+  · intro i h
+    have := inCell_axis_iff hinc val i
+    constructor
+    · intro hr
+      obtain ⟨_, h1, h2⟩ := this.2 ⟨by omega, h⟩
+      exact ⟨h1, h2⟩
+    · rintro ⟨h1, h2⟩
+      have := (this.1 ⟨h, h1, h2⟩).1
+      omega
+end Search
+
+section SearchAny
+variable {α : Type} [LT α] [LE α] [DecidableLT α] [DecidableLE α] [DecidableEq α]
+
+/-- Even without the precondition (edges not increasing — "it is not checked"): for any
+non-empty array and any in-range guess the search returns an index in `[−1, len − 1]`; it neither
+raises nor leaves the modelled domain. -/
+theorem bin1d_returns (guess : Nat → Nat → Int) (hg : GuessOK guess) (arr : List α) (hne : arr ≠ []) (val : α) :
+    ∃ r : Int, bin1d guess val arr = .ok r ∧ -1 ≤ r ∧ r ≤ (arr.length : Int) - 1 := by
+  have hl : arr.length ≠ 0 := by simpa using hne
+  simp only [bin1d, hl, if_false]
+  obtain ⟨r, h, h1, h2⟩ := bin1dLoop_total guess val arr hg _ 0 (arr.length - 1) rfl (by omega) (by omega)
+  exact ⟨r, h, by omega, by omega⟩
+
+/-- an empty edge array: `arr[0]` raises `IndexError` -/
+theorem bin1d_empty (guess : Nat → Nat → Int) (val : α) : bin1d guess val ([] : List α) = .error .indexError := rfl
+end SearchAny
+
+
+/-! ## (4) in any dimension: `get_bin_on_value` -/
+section Fill
+variable {α β : Type} [LT α] [LE α] [DecidableLT α] [DecidableLE α] [DecidableEq α]
+  [Std.IsLinearOrder α] [Std.LawfulOrderLT α]
+
+/-- `c` is a coordinate of the right form for the edges `e`, with components `xs`: a number for
+flat (one-dimensional) edges, a list/tuple with one component per axis for nested edges -/
+inductive Proper : Edges α → Coord α → List α → Prop
+  | flat (arr : List α) (x : α) : Proper (.flat arr) (.scalar x) [x]
+  | nested (axes : List (List α)) (xs : List α) : xs.length = axes.length →
+      Proper (.nested axes) (.tuple xs) xs
+
+theorem Proper.length {e : Edges α} {c : Coord α} {xs : List α} (h : Proper e c xs) :
+    xs.length = e.axes.length := by
+  cases h with
+  | flat arr x => rfl
+  | nested axes xs h => exact h
+
+/-- every per-axis guess function stays within `[ind_min, ind_max]` -/
+def GuessesOK (g : Nat → Nat → Nat → Int) : Prop := ∀ k, GuessOK (g k)
+
+/-- the per-axis loop of `get_bin_on_value` -/
+theorem binsLoop_spec (g : Nat → Nat → Nat → Int) (hg : GuessesOK g) :
+    ∀ (axes : List (List α)) (xs : List α) (k : Nat), xs.length = axes.length →
+      (∀ arr ∈ axes, ValidAxis arr) → binsLoop g k xs axes = .ok (indices axes xs)
+  | [], [], _, _, _ => rfl
+  | [], _ :: _, _, hl, _ => by simp at hl
+  | _ :: _, [], _, hl, _ => by simp at hl
+  | arr :: axes, x :: xs, k, hl, hv => by
+    have ha := hv arr (by simp)
+    have hne : arr ≠ [] := by intro h; have := ha.1; simp [h] at this
+    have ih := binsLoop_spec g hg axes xs (k + 1) (by simpa using hl)
+      (fun a hm => hv a (List.mem_cons_of_mem _ hm))
+    simp [binsLoop, bin1d_spec (g k) x ((hg k).at _ _) ha.2 hne, ih, indices, bind, Except.bind, pure, Except.pure]
+
+/-- **Bin index** (`get_bin_on_value`): for strictly increasing edges in any number of dimensions,
+any coordinate of the right form and any in-range guesses, the index reported along every axis is
+(the number of edges not greater than the coordinate) − 1. -/
+theorem getBinOnValue_spec (g : Nat → Nat → Nat → Int) (hg : GuessesOK g) {e : Edges α}
+    (he : ValidEdges e) {c : Coord α} {xs : List α} (hp : Proper e c xs) :
+    getBinOnValue g c e = .ok (indices e.axes xs) := by
+  cases hp with
+  | flat arr x =>
+    have ha : ValidAxis arr := he.2 arr (by simp [Edges.axes])
+    have hne : arr ≠ [] := by intro h; have := ha.1; simp [h] at this
+    simp [getBinOnValue, bin1d_spec (g 0) x ((hg 0).at _ _) ha.2 hne, indices, Edges.axes, bind, Except.bind, pure, Except.pure]
+  | nested axes xs hl =>
+    have : ¬ xs.length ≠ axes.length := by simp [hl]
+    simp only [getBinOnValue, this, if_false]
+    exact binsLoop_spec g hg axes xs 0 hl he.2
+
+/-- a coordinate with the wrong number of components is rejected -/
+theorem getBinOnValue_wrong_length (g : Nat → Nat → Nat → Int) (axes : List (List α)) (xs : List α)
+    (h : xs.length ≠ axes.length) : getBinOnValue g (.tuple xs) (.nested axes) = .error .lenaValueError := by
+  simp [getBinOnValue, h]
+
+/-! ## `histogram.fill` -/
+
+variable [Lean.Grind.AddCommMonoid β]
+
+/-- well-formed histogram state: valid edges, bins of the matching regular shape
+(`len(axis) − 1` cells along every axis) -/
+structure WF (h : Hist α β) : Prop where
+  edges : ValidEdges h.edges
+  shape : NArr.HasShape (dimsOf h.edges.axes) h.bins
+
+theorem dimsOf_ne_nil {e : Edges α} (he : ValidEdges e) : dimsOf e.axes ≠ [] := by
+  have := he.1
+  simpa [dimsOf] using this
+
+theorem validEdges_strictInc {e : Edges α} (he : ValidEdges e) : ∀ arr ∈ e.axes, StrictInc arr :=
+  fun arr h => (he.2 arr h).2
+
+/-- **Sentence (1).**  In a well-formed histogram of any dimension, if the cell `idx` contains the
+coordinate (half-open in every dimension) then `fill` adds the weight to exactly that cell: the
+new state is the old one with `bins[idx] += w` — `n_out_of_range`, `edges`, `dim` and every other
+cell are literally the old ones (`fill_frame` spells that out through `get?`).  By `inCell_unique`
+there is only one such cell. -/
+theorem fill_exact_cell (g : Nat → Nat → Nat → Int) (hg : GuessesOK g) {h : Hist α β} (hwf : WF h)
+    {c : Coord α} {xs : List α} (hp : Proper h.edges c xs) (w : β) {idx : List Nat}
+    (hc : InCell h.edges.axes xs idx) :
+    fill g h c w = .ok { h with bins := NArr.modifyAt (· + w) h.bins idx } := by
+  have hi := (inCell_iff _ _ _ (validEdges_strictInc hwf.edges) hp.length).1 hc
+  have hw := fillWalk_inRange w _ _ _ hwf.shape hi.1 (dimsOf_ne_nil hwf.edges)
+  simp [fill, getBinOnValue_spec g hg hwf.edges hp, hw, hi.2, bind, Except.bind, pure, Except.pure]
+
+/-- **Sentence (2).**  If no cell contains the coordinate, the weight goes to `n_out_of_range`
+and nothing else changes. -/
+theorem fill_out_of_range (g : Nat → Nat → Nat → Int) (hg : GuessesOK g) {h : Hist α β} (hwf : WF h)
+    {c : Coord α} {xs : List α} (hp : Proper h.edges c xs) (w : β)
+    (hno : ∀ idx, ¬ InCell h.edges.axes xs idx) :
+    fill g h c w = .ok { h with nOut := h.nOut + w } := by
+  have hnr : ¬ InRange (indices h.edges.axes xs) (dimsOf h.edges.axes) := by
+    intro hr
+    exact hno _ ((inCell_iff _ _ _ (validEdges_strictInc hwf.edges) hp.length).2 ⟨hr, rfl⟩)
+  have hlen : (indices h.edges.axes xs).length = (dimsOf h.edges.axes).length := by
+    simp [indices, dimsOf, hp.length]
+  have hw := fillWalk_outRange w _ _ _ hwf.shape hlen hnr (dimsOf_ne_nil hwf.edges)
+  simp [fill, getBinOnValue_spec g hg hwf.edges hp, hw, bind, Except.bind, pure, Except.pure]
+
+end Fill
+
+section Fill2
+variable {α β : Type} [LT α] [LE α] [DecidableLT α] [DecidableLE α] [DecidableEq α]
+  [Std.IsLinearOrder α] [Std.LawfulOrderLT α] [Lean.Grind.AddCommMonoid β]
+open Lean.Grind.AddCommMonoid
+
+/-- **Sentences (1)–(3) together, observationally.**  A fill of a proper coordinate into a
+well-formed histogram always returns; `edges` and `dim` are unchanged; and either
+* some cell `idx` contains the coordinate, that cell held `c₀` and now holds `c₀ + w`, every other
+  cell index `j` (of the same length) reads the same as before, `n_out_of_range` is unchanged; or
+* no cell contains it, `bins` are unchanged and `n_out_of_range` grew by `w`. -/
+theorem fill_frame (g : Nat → Nat → Nat → Int) (hg : GuessesOK g) {h : Hist α β} (hwf : WF h)
+    {c : Coord α} {xs : List α} (hp : Proper h.edges c xs) (w : β) :
+    ∃ h', fill g h c w = .ok h' ∧ h'.edges = h.edges ∧ h'.dim = h.dim ∧
+      ((∃ idx c₀, InCell h.edges.axes xs idx ∧ h'.nOut = h.nOut ∧
+          NArr.get? h.bins idx = some (.leaf c₀) ∧
+          NArr.get? h'.bins idx = some (.leaf (c₀ + w)) ∧
+          ∀ j, j ≠ idx → j.length = idx.length → NArr.get? h'.bins j = NArr.get? h.bins j)
+       ∨ ((∀ idx, ¬ InCell h.edges.axes xs idx) ∧ h'.bins = h.bins ∧ h'.nOut = h.nOut + w)) := by
+  have hiff := fun idx => inCell_iff h.edges.axes xs idx (validEdges_strictInc hwf.edges) hp.length
+  by_cases hr : InRange (indices h.edges.axes xs) (dimsOf h.edges.axes)
+  · have hc : InCell h.edges.axes xs ((indices h.edges.axes xs).map Int.toNat) := (hiff _).2 ⟨hr, rfl⟩
+    obtain ⟨c₀, hc₀⟩ := get?_of_inRange _ _ _ hwf.shape hr
+    refine ⟨_, fill_exact_cell g hg hwf hp w hc, rfl, rfl, Or.inl ⟨_, c₀, hc, rfl, hc₀, ?_, ?_⟩⟩
+    · exact get?_modifyAt_same _ _ _ _ hc₀
+    · intro j hj hl
+      exact get?_modifyAt_other _ _ _ _ hj hl
+  · have hno : ∀ idx, ¬ InCell h.edges.axes xs idx := fun idx hc => hr ((hiff idx).1 hc).1
+    exact ⟨_, fill_out_of_range g hg hwf hp w hno, rfl, rfl, Or.inr ⟨hno, rfl, rfl⟩⟩
+
+omit [Std.IsLinearOrder α] [Std.LawfulOrderLT α] in
+/-- whatever the coordinate, the guesses and the shapes: a fill that returns changed neither the
+edges nor `dim`, and the sum of all cells plus `n_out_of_range` grew by exactly the weight -/
+theorem fill_conserves (g : Nat → Nat → Nat → Int) (h h' : Hist α β) (c : Coord α) (w : β)
+    (hf : fill g h c w = .ok h') :
+    h'.edges = h.edges ∧ h'.dim = h.dim ∧ total h'.bins + h'.nOut = total h.bins + h.nOut + w := by
+  unfold fill at hf
+  cases hi : getBinOnValue g c h.edges with
+  | error e => simp [hi, bind, Except.bind] at hf
+  | ok is =>
+    cases hw : fillWalk w h.bins is with
+    | error e => simp [hi, hw, bind, Except.bind] at hf
+    | ok r =>
+      cases r with
+      | none =>
+        simp [hi, hw, bind, Except.bind, pure, Except.pure] at hf
+        subst hf
+        exact ⟨rfl, rfl, (add_assoc _ _ _).symm⟩
+      | some b =>
+        simp [hi, hw, bind, Except.bind, pure, Except.pure] at hf
+        subst hf
+        refine ⟨rfl, rfl, ?_⟩
+        simp only [fillWalk_total w is _ _ hw]
+        exact add_right_comm' _ _ _
+
+omit [Std.IsLinearOrder α] [Std.LawfulOrderLT α] in
+/-- a fill that returns keeps the regular shape of the bins -/
+theorem fill_shape (g : Nat → Nat → Nat → Int) (h h' : Hist α β) (c : Coord α) (w : β) (ds : List Nat)
+    (hf : fill g h c w = .ok h') (hs : NArr.HasShape ds h.bins) : NArr.HasShape ds h'.bins := by
+  unfold fill at hf
+  cases hi : getBinOnValue g c h.edges with
+  | error e => simp [hi, bind, Except.bind] at hf
+  | ok is =>
+    cases hw : fillWalk w h.bins is with
+    | error e => simp [hi, hw, bind, Except.bind] at hf
+    | ok r =>
+      cases r with
+      | none =>
+        simp [hi, hw, bind, Except.bind, pure, Except.pure] at hf
+        subst hf; exact hs
+      | some b =>
+        simp [hi, hw, bind, Except.bind, pure, Except.pure] at hf
+        subst hf
+        exact fillWalk_shape w is ds _ _ hw hs
+
+/-- well-formedness is an invariant of `fill` -/
+theorem fill_wf (g : Nat → Nat → Nat → Int) {h h' : Hist α β} (c : Coord α) (w : β)
+    (hf : fill g h c w = .ok h') (hwf : WF h) : WF h' := by
+  have he := (fill_conserves g h h' c w hf).1
+  constructor
+  · rw [he]; exact hwf.edges
+  · rw [he]; exact fill_shape g h h' c w _ hf hwf.shape
+
+/-! ## sequences of fills -/
+
+/-- sum of a list of weights -/
+def sumW : List β → β
+  | [] => 0
+  | w :: ws => w + sumW ws
+
+omit [Std.IsLinearOrder α] [Std.LawfulOrderLT α] in
+/-- **Sentence (5), unconditionally.**  For any sequence of fills that returns — whatever the
+edges, shapes, coordinates and guesses — the sum of all cells plus `n_out_of_range` grew by
+exactly the sum of the weights, and the edges are the initial ones. -/
+theorem fillAll_conserves : ∀ (ops : List ((Nat → Nat → Nat → Int) × Coord α × β)) (h h' : Hist α β),
+    fillAll h ops = .ok h' →
+    h'.edges = h.edges ∧ total h'.bins + h'.nOut = total h.bins + h.nOut + sumW (ops.map (·.2.2))
+  | [], h, h', hf => by
+    simp [fillAll] at hf; subst hf
+    exact ⟨rfl, by simp [sumW, add_zero]⟩
+  | (g, c, w) :: rest, h, h', hf => by
+    unfold fillAll at hf
+    cases h1 : fill g h c w with
+    | error e => simp [h1, bind, Except.bind] at hf
+    | ok h₁ =>
+      simp only [h1, bind, Except.bind] at hf
+      obtain ⟨e1, _, t1⟩ := fill_conserves g h h₁ c w h1
+      obtain ⟨e2, t2⟩ := fillAll_conserves rest h₁ h' hf
+      refine ⟨e2.trans e1, ?_⟩
+      rw [t2, t1]
+      simp only [List.map_cons, sumW, add_assoc]
+
+/-- every operation of the sequence has in-range guesses and a coordinate of the right form -/
+def OpsOK (e : Edges α) (ops : List ((Nat → Nat → Nat → Int) × Coord α × β)) : Prop :=
+  ∀ op ∈ ops, GuessesOK op.1 ∧ ∃ xs, Proper e op.2.1 xs
+
+/-- a sequence of proper fills into a well-formed histogram never raises -/
+theorem fillAll_ok : ∀ (ops : List ((Nat → Nat → Nat → Int) × Coord α × β)) (h : Hist α β),
+    WF h → OpsOK h.edges ops → ∃ h', fillAll h ops = .ok h' ∧ WF h' ∧ h'.edges = h.edges
+  | [], h, hwf, _ => ⟨h, rfl, hwf, rfl⟩
+  | (g, c, w) :: rest, h, hwf, hops => by
+    obtain ⟨hg, xs, hp⟩ := hops (g, c, w) (by simp)
+    obtain ⟨h₁, h1, he, _⟩ := fill_frame g hg hwf hp w
+    have hwf1 := fill_wf g c w h1 hwf
+    have hops1 : OpsOK h₁.edges rest := by
+      rw [he]; exact fun op hm => hops op (List.mem_cons_of_mem _ hm)
+    obtain ⟨h', h2, hwf', he'⟩ := fillAll_ok rest h₁ hwf1 hops1
+    exact ⟨h', by simp [fillAll, h1, h2, bind, Except.bind], hwf', he'.trans he⟩
+
+/-! ## creation: `check_edges_increasing` guards the precondition -/
+
+/-- `dim` of a histogram: 1 for flat edges, the number of axes otherwise -/
+def edgesDim : Edges α → Nat
+  | .flat _ => 1
+  | .nested axes => axes.length
+
+/-- for valid edges `histogram(edges, initial_value=init)` is the regular array of `len(axis) − 1`
+cells per axis, all holding `init`, with `n_out_of_range = 0` -/
+theorem mkHist_valid {e : Edges α} (he : ValidEdges e) (init : β) :
+    mkHist e none init =
+      .ok { edges := e, bins := NArr.full (dimsOf e.axes) init, nOut := 0, dim := edgesDim e } := by
+  have h1 : ∀ a ∈ e.axes, a ≠ [] := by
+    intro a ha h; have := (he.2 a ha).1; simp [h] at this
+  cases e <;>
+  simp only [mkHist, checkEdgesIncreasing_ok he, initBins_eq init _ he.1 h1, bind, Except.bind, pure,
+    Except.pure, dimsOf, edgesDim]
+
+/-- for anything else (no axis, an axis with fewer than two edges or not strictly increasing)
+construction raises `LenaValueError`, whatever `bins` are passed -/
+theorem mkHist_invalid {e : Edges α} (he : ¬ ValidEdges e) (bins : Option (NArr β)) (init : β) :
+    mkHist e bins init = .error .lenaValueError := by
+  simp [mkHist, checkEdgesIncreasing_err he, bind, Except.bind]
+
+theorem mkHist_wf {e : Edges α} (he : ValidEdges e) (init : β) {h : Hist α β}
+    (hm : mkHist e none init = .ok h) : WF h ∧ h.edges = e ∧ h.nOut = 0 ∧ h.bins = NArr.full (dimsOf e.axes) init := by
+  rw [mkHist_valid he init] at hm
+  simp only [Except.ok.injEq] at hm
+  subst hm
+  exact ⟨⟨he, hasShape_full init _⟩, rfl, rfl, rfl⟩
+
+/-- **Sentence (5) for the structure.**  For strictly increasing edges in any dimension and any
+sequence of proper coordinates and weights (any in-range guesses): creation succeeds, no fill
+raises, and afterwards `get_nevents(include_out_of_range=True)` — the sum of all bins plus
+`n_out_of_range` — equals the total filled weight. -/
+theorem weight_conserved {e : Edges α} (he : ValidEdges e)
+    (ops : List ((Nat → Nat → Nat → Int) × Coord α × β)) (hops : OpsOK e ops) :
+    ∃ h₀ h, mkHist e none (0 : β) = .ok h₀ ∧ fillAll h₀ ops = .ok h ∧
+      getNevents h true = sumW (ops.map (·.2.2)) ∧
+      total h.bins + h.nOut = sumW (ops.map (·.2.2)) := by
+  have hd := mkHist_valid he (0 : β)
+  obtain ⟨hwf, hedges, hn, hb⟩ := mkHist_wf he (0 : β) hd
+  obtain ⟨h, hf, _, _⟩ := fillAll_ok ops _ hwf (by rw [hedges]; exact hops)
+  have hc := (fillAll_conserves ops _ h hf).2
+  simp only [total_full_zero, zero_add', add_zero] at hc
+  refine ⟨_, h, hd, hf, ?_, ?_⟩
+  · rw [getNevents_eq]; simpa using hc
+  · simpa using hc
+
+end Fill2
+
+/-! ## the element `Histogram` -/
+section Elem
+variable {α β κ : Type} [LT α] [LE α] [DecidableLT α] [DecidableLE α] [DecidableEq α]
+  [Std.IsLinearOrder α] [Std.LawfulOrderLT α] [Lean.Grind.AddCommMonoid β]
+
+omit [Std.IsLinearOrder α] [Std.LawfulOrderLT α] in
+/-- `Histogram.fill(value)` is `histogram.fill(data)` with the unit weight; the current context
+becomes the value's context (`{}` for a bare value) -/
+theorem histEl_fill_eq (empty : κ) (one : β) (g : Nat → Nat → Nat → Int) (e : HistEl α β κ)
+    (data : Coord α) (ctx : Option κ) :
+    HistEl.fill empty one g e data ctx =
+      (fill g e.hist data one).map (fun h => { hist := h, curContext := ctx.getD empty }) := by
+  unfold HistEl.fill
+  cases fill g e.hist data one <;> rfl
+
+/-- the operations on the wrapped histogram that a flow of values amounts to -/
+def toOps (one : β) (vals : List ((Nat → Nat → Nat → Int) × Coord α × Option κ)) :
+    List ((Nat → Nat → Nat → Int) × Coord α × β) :=
+  vals.map (fun v => (v.1, v.2.1, one))
+
+/-- `_cur_context` after a flow: the context of the last value (`{}` if it was bare) -/
+def lastCtx (empty : κ) : κ → List ((Nat → Nat → Nat → Int) × Coord α × Option κ) → κ
+  | c, [] => c
+  | _, v :: vs => lastCtx empty (v.2.2.getD empty) vs
+
+omit [Std.IsLinearOrder α] [Std.LawfulOrderLT α] in
+/-- filling a flow into the element = the same fills, with weight `one`, on its histogram -/
+theorem histEl_fillAll_eq (empty : κ) (one : β) :
+    ∀ (vals : List ((Nat → Nat → Nat → Int) × Coord α × Option κ)) (e : HistEl α β κ),
+    HistEl.fillAll empty one e vals =
+      (fillAll e.hist (toOps one vals)).map
+        (fun h => { hist := h, curContext := lastCtx empty e.curContext vals })
+  | [], e => rfl
+  | (g, c, ctx) :: rest, e => by
+    unfold HistEl.fillAll
+    rw [histEl_fill_eq]
+    simp only [toOps, List.map_cons, fillAll]
+    cases hf : fill g e.hist c one with
+    | error err => rfl
+    | ok h₁ =>
+      simp only [Except.map, bind, Except.bind]
+      have := histEl_fillAll_eq empty one rest { hist := h₁, curContext := ctx.getD empty }
+      simp only [toOps] at this
+      rw [this]
+      rfl
+
+/-- sentence (1) for the element: the unit weight goes to the one cell containing the value -/
+theorem elem_fill_exact_cell (empty : κ) (one : β) (g : Nat → Nat → Nat → Int) (hg : GuessesOK g)
+    {e : HistEl α β κ} (hwf : WF e.hist) {c : Coord α} {xs : List α} (hp : Proper e.hist.edges c xs)
+    (ctx : Option κ) {idx : List Nat} (hc : InCell e.hist.edges.axes xs idx) :
+    HistEl.fill empty one g e c ctx =
+      .ok { hist := { e.hist with bins := NArr.modifyAt (· + one) e.hist.bins idx },
+            curContext := ctx.getD empty } := by
+  rw [histEl_fill_eq, fill_exact_cell g hg hwf hp one hc]; rfl
+
+/-- sentence (2) for the element -/
+theorem elem_fill_out_of_range (empty : κ) (one : β) (g : Nat → Nat → Nat → Int) (hg : GuessesOK g)
+    {e : HistEl α β κ} (hwf : WF e.hist) {c : Coord α} {xs : List α} (hp : Proper e.hist.edges c xs)
+    (ctx : Option κ) (hno : ∀ idx, ¬ InCell e.hist.edges.axes xs idx) :
+    HistEl.fill empty one g e c ctx =
+      .ok { hist := { e.hist with nOut := e.hist.nOut + one }, curContext := ctx.getD empty } := by
+  rw [histEl_fill_eq, fill_out_of_range g hg hwf hp one hno]; rfl
+
+theorem sumW_toOps (one : β) (vals : List ((Nat → Nat → Nat → Int) × Coord α × Option κ)) :
+    sumW ((toOps one vals).map (·.2.2)) = sumW (List.replicate vals.length one) := by
+  induction vals with
+  | nil => rfl
+  | cons v vs ih => simp only [toOps, List.map_cons, sumW, List.length_cons, List.replicate_succ] at ih ⊢; rw [ih]
+
+/-- **Sentence (5) for the element.**  After any flow of proper values (with or without contexts)
+into `Histogram(edges)`, `compute()` yields a histogram whose bins plus `n_out_of_range` sum to
+(number of values) × (unit weight), together with the context of the last value. -/
+theorem elem_weight_conserved (empty : κ) (one : β) {ed : Edges α} (he : ValidEdges ed)
+    (vals : List ((Nat → Nat → Nat → Int) × Coord α × Option κ))
+    (hv : ∀ v ∈ vals, GuessesOK v.1 ∧ ∃ xs, Proper ed v.2.1 xs) :
+    ∃ e₀ e, HistEl.new empty ed none (0 : β) = .ok e₀ ∧ HistEl.fillAll empty one e₀ vals = .ok e ∧
+      getNevents (HistEl.compute e).1 true = sumW (List.replicate vals.length one) ∧
+      (HistEl.compute e).2 = lastCtx empty empty vals := by
+  have hops : OpsOK ed (toOps one vals) := by
+    intro op hm
+    obtain ⟨v, hvm, rfl⟩ := List.mem_map.1 hm
+    exact hv v hvm
+  obtain ⟨h₀, h, hm, hf, hn, _⟩ := weight_conserved (β := β) he (toOps one vals) hops
+  refine ⟨{ hist := h₀, curContext := empty }, { hist := h, curContext := lastCtx empty empty vals }, ?_, ?_, ?_, rfl⟩
+  · simp [HistEl.new, hm, bind, Except.bind, pure, Except.pure]
+  · rw [histEl_fillAll_eq, hf]; rfl
+  · simp only [HistEl.compute]; rw [hn, sumW_toOps]
+
+end Elem
+
+/-! ## non-vacuity: concrete instances of the hypotheses (tests, not theorems) -/
+section Examples
+
+/-- bisection as a guess function -/
+def midGuess (lo hi : Nat) : Int := (((lo + hi) / 2 : Nat) : Int)
+
+theorem midGuess_ok : GuessOK midGuess := by
+  intro lo hi h; simp only [midGuess]; omega
+
+/-- the guesses of the real code's worst case: always `ind_max` (rounding up to the end) -/
+theorem hiGuess_ok : GuessOK (fun _ hi => (hi : Int)) := by
+  intro lo hi h; simp only []; omega
+
+def exArr : List Int := [0, 10, 40, 50, 70, 100]
+
+theorem exArr_inc : StrictInc exArr := by unfold StrictInc exArr; decide
+
+example : bin1d midGuess 45 exArr = .ok 2 := by
+  rw [bin1d_spec midGuess _ (midGuess_ok.at _ _) exArr_inc (by decide)]; rfl
+example : bin1d (fun _ hi => (hi : Int)) 45 exArr = .ok 2 := by
+  rw [bin1d_spec _ _ (hiGuess_ok.at _ _) exArr_inc (by decide)]; rfl
+example : bin1d midGuess 100 exArr = .ok 5 := by
+  rw [bin1d_spec midGuess _ (midGuess_ok.at _ _) exArr_inc (by decide)]; rfl
+example : bin1d midGuess (-3) exArr = .ok (-1) := by
+  rw [bin1d_spec midGuess _ (midGuess_ok.at _ _) exArr_inc (by decide)]; rfl
+
+/-- a 3 × 2 mesh -/
+def exEdges : Edges Int := .nested [[0, 1, 2, 4], [-3, 1, 6]]
+
+theorem exEdges_valid : ValidEdges exEdges := by
+  refine ⟨by simp [exEdges, Edges.axes], ?_⟩
+  intro arr h
+  simp only [exEdges, Edges.axes, List.mem_cons, List.not_mem_nil, or_false] at h
+  rcases h with rfl | rfl <;> exact ⟨by decide, by unfold StrictInc; decide⟩
+
+def exHist : Hist Int Int :=
+  { edges := exEdges, bins := NArr.full [3, 2] 0, nOut := 0, dim := 2 }
+
+theorem exHist_wf : WF exHist := ⟨exEdges_valid, hasShape_full 0 [3, 2]⟩
+
+example : mkHist exEdges none (0 : Int) = .ok exHist := mkHist_valid exEdges_valid 0
+
+theorem ex_proper : Proper exHist.edges (.tuple [3, 1]) [3, 1] := Proper.nested _ _ rfl
+
+/-- the point (3, 1) lies in the cell (2, 1): `2 ≤ 3 < 4`, `1 ≤ 1 < 6` -/
+theorem ex_inCell : InCell exHist.edges.axes [3, 1] [2, 1] :=
+  ⟨⟨by decide, by decide, by decide⟩, ⟨by decide, by decide, by decide⟩, trivial⟩
+
+example : fill (fun _ => midGuess) exHist (.tuple [3, 1]) 5 =
+    .ok { exHist with bins := .node [.node [.leaf 0, .leaf 0], .node [.leaf 0, .leaf 0],
+                                      .node [.leaf 0, .leaf 5]] } := by
+  rw [fill_exact_cell _ (fun _ => midGuess_ok) exHist_wf ex_proper 5 ex_inCell]; rfl
+
+/-- the point (3, 6) lies in no cell (the upper edge 6 is excluded) -/
+theorem ex_noCell : ∀ idx, ¬ InCell exHist.edges.axes [3, 6] idx := by
+  intro idx h
+  have := ((inCell_iff _ _ idx (validEdges_strictInc exHist_wf.edges) rfl).1 h).1
+  revert this; decide
+
+example : fill (fun _ => midGuess) exHist (.tuple [3, 6]) 5 = .ok { exHist with nOut := 5 } := by
+  rw [fill_out_of_range _ (fun _ => midGuess_ok) exHist_wf (Proper.nested _ _ rfl) 5 ex_noCell]; rfl
+
+/-- a sequence satisfying the hypotheses of `weight_conserved` -/
+def exOps : List ((Nat → Nat → Nat → Int) × Coord Int × Int) :=
+  [(fun _ => midGuess, .tuple [3, 1], 5), (fun _ _ hi => hi, .tuple [3, 6], -2),
+   (fun _ => midGuess, .tuple [0, -3], 7)]
+
+theorem exOps_ok : OpsOK exEdges exOps := by
+  intro op h
+  simp only [exOps, List.mem_cons, List.not_mem_nil, or_false] at h
+  rcases h with rfl | rfl | rfl
+  · exact ⟨fun _ => midGuess_ok, _, Proper.nested _ _ rfl⟩
+  · exact ⟨fun _ => hiGuess_ok, _, Proper.nested _ _ rfl⟩
+  · exact ⟨fun _ => midGuess_ok, _, Proper.nested _ _ rfl⟩
+
+example : ∃ h₀ h, mkHist exEdges none (0 : Int) = .ok h₀ ∧ fillAll h₀ exOps = .ok h ∧
+    getNevents h true = 10 ∧ total h.bins + h.nOut = 10 :=
+  weight_conserved exEdges_valid exOps exOps_ok
+
+/-- flat (one-dimensional) edges and a bare number as coordinate -/
+example : Proper (.flat exArr) (.scalar (45 : Int)) [45] := Proper.flat _ _
+example : ValidEdges (.flat exArr) :=
+  ⟨by simp [Edges.axes], by
+    intro arr h
+    simp only [Edges.axes, List.mem_cons, List.not_mem_nil, or_false] at h
+    subst h; exact ⟨by decide, exArr_inc⟩⟩
+
+/-- invalid edges: a repeated edge -/
+example : ¬ ValidEdges (.flat [0, 1, 1] : Edges Int) := by
+  intro h
+  have := (h.2 [0, 1, 1] (by simp [Edges.axes])).2
+  revert this; unfold StrictInc; decide
+
+end Examples
+
+end Lena.C06
